@@ -31,13 +31,18 @@ def generate(r):
     senders_of = collections.defaultdict(list)
     pattern = r.choice(["random", "random", "random", "backlog", "pingpong", "fan", "balanced", "balanced", "early_wakes"])
     preset_spawned = {}
+    preset_main = None
 
     if pattern == "early_wakes":
         # a receiver on a buffered channel that launches short lived children between its receives: every completing child
         # wakes its sleeping parent early, the parent finds the channel still empty and registers as a waiter once more, so
-        # stale registrations pile up in front of a second receiver that parks later
-        w = 0
+        # stale registrations pile up in the channel. The main fiber feeds the values one at a time and yields through a
+        # synchronous handshake with a sink fiber in between; after the first receiver is gone a second receiver is
+        # launched, parks behind the stale registrations, and only then its value is sent. Little else is going on, so a
+        # wake-up that is lost here is not rescued by some other fiber's rescan
+        w, ack = 0, len(caps)
         caps[w] = r.choice([1, 2, 3])
+        caps.append(0)
         k = r.randint(1, 3)
         first = []
         children = []
@@ -53,12 +58,24 @@ def generate(r):
         second_receives = r.randint(1, 2)
         second = len(scripts)
         scripts.append([["recv", w] for _ in range(second_receives)])
-        sender = len(scripts)
-        scripts.append([["send", w, (sender + 1) * 100 + i] for i in range(k + second_receives)])
-        senders_of[w].append(sender)
-        if r.random() < 0.6:
-            # the second receiver only appears after the main fiber has done something else
-            preset_spawned[str(second)] = -1
+        preset_spawned[str(second)] = -1
+        sink = len(scripts)
+        handshakes = 0
+        feed = []
+        for i in range(k):
+            for _ in range(r.randint(1, 2)):
+                feed.append(["send", ack, 0])
+                handshakes += 1
+            feed.append(["send", w, 0])
+        feed.append(["spawn", second])
+        for i in range(second_receives):
+            for _ in range(r.randint(1, 2)):
+                feed.append(["send", ack, 0])
+                handshakes += 1
+            feed.append(["send", w, 0])
+        scripts.append([["recv", ack] for _ in range(handshakes)])
+        senders_of[w].append(-1)
+        preset_main = feed
         nf = len(scripts)
     elif pattern == "balanced":
         # count-balanced senders and receivers per channel: completes under every ideal schedule, so every lost
@@ -147,6 +164,8 @@ def generate(r):
 
     # optional close by a fiber that has used the channel, and a drain by someone else
     for ch in range(len(caps)):
+        if pattern == "early_wakes":
+            break
         if any(op[0] == "close" and op[1] == ch for script in scripts for op in script):
             continue
         users = [f for f in range(nf) if any(op[0] in ("send", "recv") and op[1] == ch for op in scripts[f])]
@@ -174,12 +193,9 @@ def generate(r):
             if op[0] == "send" and op[1] in closed and closed[op[1]] != f:
                 op[0] = "gsend"
     main = []
-    for _ in range(r.randint(0, 3)):
+    for _ in range(0 if preset_main is not None else r.randint(0, 3)):
         kind = r.choice(["send", "recv"])
         ch = r.randrange(len(caps))
-        if pattern == "early_wakes" and ch == 0:
-            # the main fiber stays off the channel whose counts are balanced by construction
-            continue
         if kind == "send":
             main.append(["gsend" if ch in closed else "send", ch, 900 + len(main)])
         else:
@@ -189,10 +205,8 @@ def generate(r):
     # some fibers are not launched by the main fiber up front but by another fiber in the middle of its script
     # (the launching fiber is then the parent that a completing child wakes)
     spawned = dict(preset_spawned)
-    if str(len(scripts)) and any(parent == -1 for parent in preset_spawned.values()):
-        for child, parent in preset_spawned.items():
-            if parent == -1:
-                main.insert(r.randint(0, len(main)), ["spawn", int(child)])
+    if preset_main is not None:
+        main = preset_main
     if not preset_spawned and r.random() < 0.35:
         for child in range(1, len(scripts)):
             if r.random() < 0.5:
